@@ -335,7 +335,9 @@ def run_batch(prop, engine, tier, batch_seed, budget_s, max_runs=None, env=None,
                     agg["worker_restarts"] += 1
                     spawn(w, nxt)
                     alive.add(w)
-            elif wk.summary.get("retired") and len(agg["violations"]) < 40 and time.time() < (
+            elif wk.summary.get("retired") and agg["worker_restarts"] < 400 and sum(
+                    1 for r in agg["violations"] if any(prop in x["properties"] for x in r["violations"])
+            ) < 40 and time.time() < (
                     worker_hard if wk.summary["next"] < min_index else deadline):
                 agg["worker_restarts"] += 1
                 spawn(w, wk.summary["next"])
